@@ -27,6 +27,10 @@ CHECKS = {
          "Finite-state proof per size and rule on the index-canonical quotient model (closed under every next key, hence all histories), transferred to the code by walking the same state graph on real LookupEncoder/LookupDecoder objects: "
          "state and transition counts equal, transition sets equal for small sizes, every real transition judged by the table contract; long random histories for sizes 8..4096.",
          "TLC exhaustive model checking of spec/PyLookup.tla + state-graph comparison on real objects"),
+ "C14": ("model_checking", "6 C14",
+         "TLC closes PyWriter.Namespace o JellyReader.RdNamespace on slices where declarations evict prefixes (prefix table 1-2); simulated behaviours with declarations are replayed through Stream.namespace_declaration and as bindings on "
+         "GenericStatementSink / rdflib Graph / Dataset through stream_frames and Graph.serialize (TRIPLES, QUADS, GRAPHS); wire judged by TLC; order and content of what the reader receives, on/off equivalence of the statements, absence when off, and regeneration are compared.",
+         "TLC model checking of the namespace slices + replay of TLC behaviours through both integrations + TLC trace judging"),
  "C18": ("model_checking", "6 C18",
          "PyWriter (with the per-row claim/refusal logic of TermEncoder) is simulated with the Fits guard off over universes whose statements need more prefix/datatype/name entries than the table holds; "
          "each behaviour is replayed into a real Stream: the refusal must come exactly where the model refuses, and whatever was written is judged by TLC against the accepted statements.",
@@ -58,7 +62,7 @@ m = {
    "enable": "no source hooks in /repo: recorders are installed from /verif by wrapping functions at run time; ./check sets JELLY_RDF_PYJELLY_VERIF=1 and PYTHONPATH=/repo so the working tree (not the compiled copy in /venv) is imported",
    "baseline_off_cmd": "cd /repo && /venv/bin/python -m pytest -ra -q -p no:cacheprovider --timeout=900 --continue-on-collection-errors; rc=$?; git -C /repo checkout -- tests/integration_tests/test_examples/temp; exit $rc",
    "source_commits": [],
-   "fix_commits": ["caaa11c", "ad129d3"],
+   "fix_commits": ["caaa11c", "ad129d3", "7027c39", "8dbb8a6"],
    "add_only": True,
  },
  "engines": [
